@@ -25,13 +25,15 @@ TRUSTED_REASONS = {
     'external_body: ext_seq_iter': 'an Iterator yields its remaining() elements (vstd iterator model)',
     'assume_specification: char::is_ascii_alphabetic': 'total pure bool (no postcondition)',
     'assume_specification: <[T]>::contains': 'total pure bool (no postcondition)',
+    'assume_specification: <core::slice::Iter<\'a, T> as Iterator>::all': 'total bool (no postcondition); sound for closures without preconditions, which is what the call site passes',
     'external_body: lex_hostname': 'split()-based scanner: contract Some(n) ==> n <= len assumed; Kani harness lexing.hostname_4 (bounded)',
     'external_body: lex_hostport': 'enumerate().find(): contract Some(n) ==> n <= len assumed; reached by Kani harness lexing.url_4 (bounded)',
     'external_body: validate_scheme': 'iter().all(): arbitrary total bool',
 
     'external_body: condense_indices': 'peekable()-based body; contract assumed in Verus, checked by rac:condense_indices (bounded: len<=7, stretch<=3)',
-    'external_body: next': 'number_lint unit: Document::iter_numbers is paste!-generated (tokens.iter().filter(is_number)); assumed to yield document tokens of kind Number and to terminate',
+    'external_body: next': 'stub iterators standing for one-line iterator adapters of /repo: number_lint unit (Document::iter_numbers, paste!-generated tokens.iter().filter(is_number): assumed to yield document tokens of kind Number) and mask_parser unit (Mask::iter_allowed: assumed to yield the allowed spans in order with their characters); both assumed to terminate',
     'external_body: iter_numbers': 'see external_body: next',
+    'external_body: iter_allowed': 'mask_parser unit: Mask::iter_allowed is a one-line iterator adapter (allowed.iter().map(|s| (*s, s.get_content(source)))); ASSUMED to yield the allowed spans in order, each with the characters it covers (stub AllowedIter::next, covered by the generic `next` entry)',
     'external_body: correct_suffix_for': 'number_lint unit: an arbitrary total function (sp_correct); its correctness is the Kani full-domain harness number.suffix_full_domain',
     'uninterp: sp_correct': 'what correct_suffix_for returns',
     'external_body: default': 'Lint::default is total; every field the rule relies on is overwritten',
